@@ -67,9 +67,18 @@ def task_tree(case, dry, rng, max_tasks):
 
 
 def schedules(c, trees, label, sim=None):
-    """trees: list of tree records with 'id'. Returns {id: [schedule,...]} from TLC (all behaviours)."""
+    """trees: list of tree records with 'id'. Returns {id: [schedule,...]} from TLC: all behaviours (BFS), or
+    `sim` random behaviours (TLC -simulate, seeded) for task trees too large to enumerate."""
     path = c.path("trees_%s.ndjson" % label)
     vlib.write_ndjson(path, trees)
+    if sim:
+        r = vlib.run_tlc("conc/ExecSched.tla", "conc/Sim_ExecSched.cfg", env={"TREES": path}, workers=1, timeout=1800,
+                         simulate=sim, depth=4 * max(len(t["parent"]) for t in trees) + 4, seed=c.seed, keep_lines=20, xmx="4g")
+        c.add_tlc("G ExecSched -simulate (%d random completion orders)" % sim, r)
+        out = {}
+        for t in r.tagged("REPLAY"):
+            out.setdefault(t[1], set()).add(t[2])
+        return {k: [json.loads(s) for s in sorted(v)] for k, v in out.items()}
     r = vlib.run_tlc("conc/ExecSched.tla", "conc/MC_ExecSched.cfg", env={"TREES": path}, workers=8, timeout=1800,
                      coverage=True, keep_lines=20, xmx="8g")
     if r.invariant_violated:
